@@ -82,7 +82,12 @@ class SimFuture(asyncio.Future):
 
 
 def _task_factory(loop, coro, context=None, **kw):
-    return SimTask(coro, loop=loop, context=context, name=kw.get('name'))
+    t = SimTask(coro, loop=loop, context=context, name=kw.get('name'))
+    # every task stays strongly referenced until the run is torn down: a task of a crashed process (or one whose
+    # future was dropped) must not be finalised -- its `finally` blocks run -- at whatever instant the garbage
+    # collector happens to find it, because that instant depends on the allocation history of the process
+    loop.created_tasks.append(t)
+    return t
 
 
 class SimLoop(asyncio.BaseEventLoop):
@@ -97,6 +102,7 @@ class SimLoop(asyncio.BaseEventLoop):
         self.executor_delay = executor_delay  # callable -> seconds, or None
         self.crashed = set()
         self.graveyard = []
+        self.created_tasks = []
         self.step_hooks = []  # callables run after every loop iteration
         self.idle_hooks = []  # callables run when no handle is ready (before the clock jumps)
         self.set_task_factory(_task_factory)
